@@ -19,6 +19,18 @@ def run(ver):
         ver.add_mc(res, f"MC_C15 {frames} MaxLen={maxlen} MaxPend={maxpend} MaxErr={maxerr} MaxReads={maxreads}: every cut point x every "
                         "deliver/pending/fail/eof x resume/drop schedule; 8 safety invariants")
         core.replay_cases(ver, binp, res["out_path"], wd, tag)
+    # liveness of the same actions (no state constraint, unbounded reads, fair source / executor, a caller that stops at a terminal result)
+    for frames, maxlen in ([("FramesA", 3)] if ver.tier == "quick" else [("FramesA", 3), ("FramesB", 4), ("FramesC", 3)]):
+        tag = f"mc_c15_live_{frames}"
+        res = core.run_tlc("MC_C15", "MC_C15L.cfg", wd, tag=tag, timeout=3000, workers=6, consts={"Frames": "<- " + frames, "MaxLen": str(maxlen)})
+        if not res["ok"]:
+            text = open(res["out_path"], errors="replace").read()
+            if "Temporal properties" in text and "violated" in text:
+                ver.mismatch("MC liveness", {"fam": "aread", "name": "liveness", "config": frames, "obs": {"p": "temporal property violated in the model"}})
+            else:
+                core.tlc_failure(res, tag)
+        ver.add_mc(res, f"MC_C15L {frames}: under fairness every read terminates, a terminal result is reached, and by then every deliverable frame was handed out "
+                        "(EventuallyTerminal, AllDeliveredAtEnd, NoReadHangs)")
     core.validate_runs(ver, binp, "c15", "Trace_C15", wd)
     ver.assumptions += ["TLC evaluates the TLA+ operators correctly",
                         "the scripted AsyncRead and the hand-polled no-op-waker executor of the harness are faithful to futures-io semantics",
